@@ -64,6 +64,10 @@ fn norm(raw: &str) -> Option<Comps> {
     }
 }
 fn spec_hunks(text: &str, hunks: &[(Vec<String>, Vec<String>)]) -> Option<String> {
+    spec_hunks_lines(text, hunks).map(|(_, out)| out)
+}
+/// the resulting line list and its rendering
+fn spec_hunks_lines(text: &str, hunks: &[(Vec<String>, Vec<String>)]) -> Option<(Vec<String>, String)> {
     let eol = if text.contains("\r\n") { "\r\n" } else { "\n" };
     let trailing = text.ends_with('\n');
     let mut lines: Vec<String> = text.split('\n').map(|l| l.strip_suffix('\r').unwrap_or(l).to_string()).collect();
@@ -94,13 +98,13 @@ fn spec_hunks(text: &str, hunks: &[(Vec<String>, Vec<String>)]) -> Option<String
         cursor = pos + after.len();
     }
     if lines.is_empty() {
-        return Some(String::new());
+        return Some((lines, String::new()));
     }
     let mut out = lines.join(eol);
     if trailing {
         out.push_str(eol);
     }
-    Some(out)
+    Some((lines, out))
 }
 fn p2s(p: &std::path::Path) -> String {
     p.to_string_lossy().to_string()
@@ -302,7 +306,13 @@ fn run_impl(rt: &tokio::runtime::Runtime, c: &Case) -> Obs {
                                 if (st == Style::Lf && b1.contains(&13)) || (st == Style::Crlf && b0.contains(&10) && style(b1) != Style::Crlf && b1.contains(&10)) {
                                     viol = Some((format!("line-ending style of {} changed", show_comps(&k)), "line_ending_changed".into()));
                                 }
-                                if !b0.is_empty() && had_nl != b1.ends_with(b"\n") {
+                                // without a final newline the rendering of a line list whose last line is
+                                // empty necessarily ends in a newline (c12_no_final_newline_not_always_kept_refuted):
+                                // only a non-empty last line can witness a changed flag
+                                let hs: Vec<(Vec<String>, Vec<String>)> = hunks.iter().map(|h| (h.before.clone(), h.after.clone())).collect();
+                                let last_nonempty = std::str::from_utf8(b0).ok().and_then(|t| spec_hunks_lines(t, &hs)).map(|(l, _)| l.last().map(|x| !x.is_empty()).unwrap_or(false)).unwrap_or(false);
+                                let now_nl = b1.ends_with(b"\n");
+                                if !b0.is_empty() && ((had_nl && !now_nl) || (!had_nl && now_nl && last_nonempty)) {
                                     viol = Some((format!("trailing newline of {} changed", show_comps(&k)), "trailing_newline_changed".into()));
                                 }
                             }
